@@ -75,6 +75,13 @@ Sub(a, b)     == SubSeq(src, a, b - 1)                              \* character
 
 -----------------------------------------------------------------------------
 \* DIALECT SWITCHES (every documented difference between the three scanners)
+\* Repairs of the XGo scanner proposed in /verif/fixes that have been committed to the tree under test.
+\* Add "tilde" (C16-tilde.diff), "sharp-empty" (C32-sharp-empty-comment.diff), "sharp-star"
+\* (C32-sharp-star-line-comment.diff) when the corresponding repair is in; until then the xgo dialect
+\* models today's code.  (C15-unit-offset.diff and C15-sharp-eof-panic.diff need no switch: the model
+\* already has the behaviour the property demands.)
+XGoFixed == {}
+
 HasKeywords      == dia \in {"xgo", "go"}         \* tpl: every identifier is IDENT
 HasPrefixStrings == dia = "xgo"                    \* c"..", C"..", py".." (scanner.go: Scan, case isLetter)
 HasUnitSuffix    == dia \in {"xgo", "tpl"}         \* 1r -> RAT, 1x -> INT UNIT (scanNumber, isLetter branch)
@@ -82,12 +89,15 @@ BangInsertsSemi  == dia \in {"xgo", "tpl"}         \* `!` sets insertSemi
 EllipsisSemi     == dia \in {"xgo", "tpl"}         \* `...` sets insertSemi when nParen = 0
 HasArrows        == dia \in {"xgo", "tpl"}         \* -> <> =>
 HasQuestionEnv   == dia \in {"xgo", "tpl"}         \* ? $
-HasTilde         == dia \in {"go", "tpl"}          \* ~ (xgo: ILLEGAL although token.TILDE has the spelling)
+HasTilde         == dia \in {"go", "tpl"} \/ (dia = "xgo" /\ "tilde" \in XGoFixed)
+                                                   \* ~ (xgo: ILLEGAL although token.TILDE has the spelling)
 HasAt            == dia = "tpl"                    \* @
 HasPow           == dia = "tpl"                    \* **
 HasSharpComment  == dia \in {"xgo", "tpl"}         \* # comments
-SharpBlock       == dia = "xgo"                    \* #* ... */ is a block comment (scanComment is shared with '/')
-SharpSkipsOne    == dia = "xgo"                    \* the character after # is consumed unconditionally, even NL
+SharpBlock       == dia = "xgo" /\ "sharp-star" \notin XGoFixed
+                                                   \* #* ... */ is a block comment (scanComment is shared with '/')
+SharpSkipsOne    == dia = "xgo" /\ "sharp-empty" \notin XGoFixed
+                                                   \* the character after # is consumed unconditionally, even NL
 SharpStripsCR    == dia = "xgo"                    \* tpl: scanSharpComment keeps every \r
 SemiBeforeComment == dia \in {"xgo", "tpl"}        \* go <= 1.19 order: `;` first, at the comment's offset (findLineEnd)
                                                    \* go >= 1.20: comment first, `;` at the newline (nlPos)
@@ -160,6 +170,7 @@ Flat(ls, ss) == IF ls = <<>> THEN <<>> ELSE Head(ls) \o Head(ss) \o Flat(Tail(ls
 \*   goone / shone     one lexeme of the full pool followed by every separator   (token kind x separator)
 \*   gomix / shmix     sequences over a small pool of semicolon-relevant lexemes, every separator
 \*   gopairs / shpairs sequences over the full pool, separators "", " ", "\n"
+\*   gomix3 / shmix3   triples over the small pool, separators "", "\n" and one line comment
 GoAll == PoolGoOps \cup PoolKw \cup PoolIdents \cup PoolNums \cup PoolStrs
 ShAll == (PoolGoOps \ {<<126>>}) \cup PoolXOps \cup PoolIdents \cup PoolNums \cup PoolStrs
 GoMix == {<<97>>, <<49>>, <<41>>, <<33>>, <<46, 46, 46>>, <<40>>, <<43, 43>>, <<60>>, <<62>>, <<45>>,
@@ -170,13 +181,15 @@ ShMix == {<<97>>, <<49>>, <<41>>, <<33>>, <<46, 46, 46>>, <<40>>, <<42>>, <<60>>
           \* a 1 ) ! ... ( * < > - = ? 1m "a" ; { }
 PlainSeps == {<<>>, <<32>>, <<10>>}
 Pool == CASE Gen \in {"goone", "gopairs"} -> GoAll
-          [] Gen = "gomix" -> GoMix
+          [] Gen \in {"gomix", "gomix3"} -> GoMix
           [] Gen \in {"shone", "shpairs"} -> ShAll
-          [] Gen = "shmix" -> ShMix
+          [] Gen \in {"shmix", "shmix3"} -> ShMix
           [] OTHER -> {}
 Seps == CASE Gen \in {"goone", "gomix"} -> PoolSeps
           [] Gen \in {"shone", "shmix"} -> PoolSeps \cup PoolSharp
           [] Gen \in {"gopairs", "shpairs"} -> PlainSeps
+          [] Gen = "gomix3" -> {<<>>, <<10>>, <<47, 47, 99, 10>>}      \* "" "\n" "//c\n"
+          [] Gen = "shmix3" -> {<<>>, <<10>>, <<35, 99, 10>>}          \* "" "\n" "#c\n"
           [] OTHER -> {<<>>}
 
 \* Input generation.  The input is built inside the behaviour (one symbol, or one lexeme and one separator,
@@ -472,7 +485,9 @@ TokenBound == Len(out) <= (p - 1) + Autos
 Termination == <>(pc = "done")
 
 \* offsets never decrease, and strictly increase from a token with source extent to the next token
-OffsetsMonotone == \A i \in 1..(Len(out) - 1) :
+\* (OffsetsMonotone, TextExact and Partition are evaluated in the final state of a behaviour: `out` only
+\* grows by Append, so the final stream contains every token ever returned.)
+OffsetsMonotone == pc = "done" => \A i \in 1..(Len(out) - 1) :
    /\ out[i].s <= out[i + 1].s
    /\ HasExtent(out[i]) /\ HasExtent(out[i + 1]) => out[i].s < out[i + 1].s
 
@@ -480,7 +495,7 @@ OffsetsMonotone == \A i \in 1..(Len(out) - 1) :
 \* carriage returns aside for the classes whose literal is CR-normalised.  The literal of a prefixed
 \* string (c"..", py"..") is the source text after the prefix (documented deviation of the xgo dialect).
 TextOf(t) == SubSeq(src, t.s + 1, t.e)
-TextExact == \A i \in 1..Len(out) : LET t == out[i] IN
+TextExact == pc = "done" => \A i \in 1..Len(out) : LET t == out[i] IN
    CASE t.k \in TextKinds -> RemoveCR(t.l) = RemoveCR(TextOf(t))
      [] t.k \in {"CSTRING", "PYSTRING"} -> t.l = SubSeq(src, t.e - Len(t.l) + 1, t.e)
      [] t.k \in OpKinds -> TextOf(t) = OpSpelling(t.k)
@@ -494,9 +509,9 @@ Disjoint == \A i \in 1..Len(out) : \A j \in (i + 1)..Len(out) :
                HasExtent(out[i]) /\ HasExtent(out[j]) => out[i].e <= out[j].s
 Covered(i) == \E k \in 1..Len(out) : out[k].s < i /\ i <= out[k].e
 IsBlankSym(i) == src[i] \in {SP, TAB, CR, NL} \/ (i = 1 /\ src[i] = BOM)
-Partition == /\ Disjoint
+Partition == /\ pc = "done" => Disjoint
              /\ (pc = "done" /\ cm) => \A i \in 1..N : ~IsBlankSym(i) => Covered(i)
-             /\ \A i \in 1..N : Covered(i) => i < p          \* nothing is tokenised ahead of the reading position
+             /\ out # <<>> => out[Len(out)].e < p              \* nothing is tokenised ahead of the reading position
 
 Export == pc = "done" => Emit([src |-> src, d |-> dia, c |-> cm, g |-> Gen, out |-> out])
 =============================================================================
